@@ -106,7 +106,13 @@ fn new_ctx(path: Option<&str>, sched: bool) -> (LocalBufferDriver, ExecContext) 
 }
 
 fn errs(e: &[Box<dyn ReportableError>]) -> Value {
-    json!({"err": e.iter().map(|x| x.get_message().to_string()).collect::<Vec<_>>()})
+    // message, then every label with its file and span: "exactly the diagnostics" includes where they point
+    json!({"err": e.iter().map(|x| {
+        let labels = x.get_labels().iter()
+            .map(|(loc, m)| format!(" @{}:{}..{} {}", loc.path.display(), loc.span.start, loc.span.end, m))
+            .collect::<Vec<_>>().join("");
+        format!("{}{}", x.get_message(), labels)
+    }).collect::<Vec<_>>()})
 }
 
 fn pan(m: String) -> Value {
